@@ -152,6 +152,10 @@ func (ndb *nodeDB) GetNode(nk []byte) (*Node, error) {
 
 	// Doesn't exist, load.
 	isLegcyNode := len(nk) == hashSize
+	if !isLegcyNode && len(nk) != int64Size+int32Size {
+		// neither a hash nor a (version, nonce) key: stored bytes gone bad
+		return nil, fmt.Errorf("invalid node key %x", nk)
+	}
 	var nodeKey []byte
 	if isLegcyNode {
 		nodeKey = ndb.legacyNodeKey(nk)
@@ -1131,6 +1135,10 @@ func (ndb *nodeDB) GetRoot(version int64) ([]byte, error) {
 		}
 		if len(val) == 0 { // empty root
 			return nil, nil
+		}
+		if len(val) != hashSize {
+			// a legacy root entry holds the hash of the root node
+			return nil, fmt.Errorf("invalid legacy root: %x", val)
 		}
 		return val, nil
 	}
